@@ -8,11 +8,11 @@ import (
 	"github.com/google/martian/v3/zzverif/vf"
 )
 
-const maxWindow = int64(1)<<31 - 1
+const zzmaxWindow = int64(1)<<31 - 1
 
 // ledger is the reference flow-control account of the receiver (the server
 // side for client->server DATA) and of the sender's credit.
-type ledger struct {
+type zzledger struct {
 	initial      int64 // receiver's current SETTINGS_INITIAL_WINDOW_SIZE
 	maxFrame     int64
 	connGranted  int64
@@ -27,18 +27,18 @@ type ledger struct {
 	accFrames    map[uint32][]int64 // flow-controlled size of every DATA frame the relay accepted, per stream, in order
 }
 
-func newLedger() *ledger {
-	return &ledger{initial: 65535, maxFrame: 16384, connGranted: 65535, streamInc: map[uint32]int64{}, streamSent: map[uint32]int64{},
+func zznewLedger() *zzledger {
+	return &zzledger{initial: 65535, maxFrame: 16384, connGranted: 65535, streamInc: map[uint32]int64{}, streamSent: map[uint32]int64{},
 		creditStream: map[uint32]int64{}, accStream: map[uint32]int64{}, accFrames: map[uint32][]int64{}, framesSent: map[uint32]int{}}
 }
 
-func (l *ledger) connWindow() int64            { return l.connGranted - l.connSent }
-func (l *ledger) streamWindow(id uint32) int64 { return l.initial + l.streamInc[id] - l.streamSent[id] }
+func (l *zzledger) connWindow() int64            { return l.connGranted - l.connSent }
+func (l *zzledger) streamWindow(id uint32) int64 { return l.initial + l.streamInc[id] - l.streamSent[id] }
 
 // observe parses what the relay has written to the server and to the client
 // since the last call and updates the ledger. It returns the streams on which
 // DATA was delivered to the server.
-func (l *ledger) observe(w *world) map[uint32]bool {
+func (l *zzledger) observe(w *zzworld) map[uint32]bool {
 	emitted := map[uint32]bool{}
 	for w.serverOut.Len() > 0 {
 		f, err := w.sr.ReadFrame()
@@ -72,7 +72,7 @@ func (l *ledger) observe(w *world) map[uint32]bool {
 	return emitted
 }
 
-func (l *ledger) check(w *world, emitted map[uint32]bool, streams []uint32) {
+func (l *zzledger) check(w *zzworld, emitted map[uint32]bool, streams []uint32) {
 	if len(emitted) > 0 {
 		vf.Assert(l.connSent <= l.connGranted, "connection-window-respected")
 	}
@@ -97,8 +97,8 @@ func (l *ledger) check(w *world, emitted map[uint32]bool, streams []uint32) {
 // VerifC09History runs a symbolic history of DATA (client->server, padded or
 // not), SETTINGS(initial window) and WINDOW_UPDATE (server->client) events.
 func VerifC09History() {
-	w := newWorld(nil)
-	l := newLedger()
+	w := zznewWorld(nil)
+	l := zznewLedger()
 	streams := []uint32{1, 3}
 	events := vf.Param("events")
 	lens := []int{0, 2}
@@ -140,10 +140,10 @@ func VerifC09History() {
 			vf.Reach("data")
 		case 1: // SETTINGS(initial window) from the server
 			v := vf.Uint32("initial-window")
-			vf.Assume(int64(v) <= maxWindow)
+			vf.Assume(int64(v) <= zzmaxWindow)
 			for _, id := range streams {
 				// RFC 7540 6.9.2: a change must not push a stream window above 2^31-1
-				vf.Assume(int64(v)+l.streamInc[id]-l.streamSent[id] <= maxWindow)
+				vf.Assume(int64(v)+l.streamInc[id]-l.streamSent[id] <= zzmaxWindow)
 			}
 			l.initial = int64(v)
 			vf.Assert(w.sw.WriteSettings(http2.Setting{ID: http2.SettingInitialWindowSize, Val: v}) == nil, "harness-write-settings")
@@ -151,16 +151,16 @@ func VerifC09History() {
 			vf.Reach("settings")
 		case 2: // WINDOW_UPDATE from the server
 			inc := vf.Uint32("increment")
-			vf.Assume(inc >= 1 && int64(inc) <= maxWindow)
+			vf.Assume(inc >= 1 && int64(inc) <= zzmaxWindow)
 			k := vf.Choice("target", len(streams)+1)
 			var id uint32
 			if k > 0 {
 				id = streams[k-1]
 				l.streamInc[id] += int64(inc)
-				vf.Assume(l.streamWindow(id) <= maxWindow)
+				vf.Assume(l.streamWindow(id) <= zzmaxWindow)
 			} else {
 				l.connGranted += int64(inc)
-				vf.Assume(l.connWindow() <= maxWindow)
+				vf.Assume(l.connWindow() <= zzmaxWindow)
 			}
 			vf.Assert(w.sw.WriteWindowUpdate(id, inc) == nil, "harness-write-window-update")
 			vf.Assert(w.pumpServer() == nil, "relay-accepts-window-update")
@@ -177,8 +177,8 @@ func VerifC09History() {
 // (just above the protocol minimum of 16384). Every frame delivered to the
 // server must be <= m and the bytes must arrive complete and in order.
 func VerifC09MaxFrame() {
-	w := newWorld(nil)
-	l := newLedger()
+	w := zznewWorld(nil)
+	l := zznewLedger()
 	m := vf.Uint32("max-frame-size")
 	vf.Assume(m >= 16384 && m <= 1<<24-1)
 	l.maxFrame = int64(m)
@@ -198,7 +198,7 @@ func VerifC09MaxFrame() {
 	// payload larger than the receiver's maximum frame size.
 	sink := &relayAdapter{1, w.cToS}
 	vf.Assert(sink.Data(data, true) == nil, "relay-accepts-data")
-	vf.Assert(drain(w.cToS) == nil, "relay-drains")
+	vf.Assert(zzdrain(w.cToS) == nil, "relay-drains")
 
 	got := 0
 	ended := false
